@@ -518,4 +518,7 @@ class C18(Prop):
             sim.fail_post("loop-error", f"loop exception handler called: {sim.loop_errors[:2]}")
 
 
+from sim.prop import with_eager  # noqa: E402
+
+C18.tiers = with_eager(C18.tiers, [('plain', 20000)])
 PROPS = {"C18": C18()}
